@@ -21,7 +21,7 @@ def confirm(wt, patch, demo, features="mt"):
     sh("git checkout -- . && git clean -fdq sylvia/tests", cwd=wt)
     sh("cp %s %s/sylvia/tests/" % (demo, wt))
     rc0, out0 = sh("cargo test -p sylvia --offline --features %s --test %s 2>&1 | tail -15" % (features, name), cwd=wt)
-    ok_without = "test result: ok" in out0 and "FAILED" not in out0 and "error" not in out0.split("test result")[0][-400:]
+    ok_without = "test result: ok" in out0 and "FAILED" not in out0 and not any(l.startswith("error") for l in out0.split("\n"))
     rc, out = sh("git apply %s" % patch, cwd=wt)
     if rc:
         print("PATCH DOES NOT APPLY", out)
